@@ -9,6 +9,8 @@ mod connection;
 #[cfg(test)]
 pub(crate) use connection::HostConnectionConfig;
 pub(crate) use connection::open_connection;
+#[cfg(scylla_verif)]
+pub(crate) use connection::verif_connection_config;
 
 pub(crate) use connection::{Connection, ConnectionConfig, TcpSocketOptions, VerifiedKeyspaceName};
 
